@@ -55,7 +55,9 @@ func (a Answer) Replayed() bool { return a.Src != nil && a.Src.Method != "" }
 
 // Step mirrors one completed call of the specification's history variable.
 type Step struct {
-	Config  string   `json:"config"`  // how the client is given the key: der | pem | bothSame | bothDifferent
+	Config  string   `json:"config"`  // how the client is given the key: der | pem | bothSame | bothDifferent | a material option
+	Opt     *KeyOpt  `json:"opt"`     // the option as the specification describes it (read for material options only)
+	Shape   *Shape   `json:"shape"`   // the shape of the submitted precertificate chain (k = "shape"), if it is not a default one
 	Rotated bool     `json:"rotated"` // the key option was assigned to the sequence by the driver (not part of fingerprints)
 	Method  string   `json:"method"`
 	Chain   string   `json:"chain"`
@@ -88,8 +90,11 @@ func (s Step) Label() string {
 	if s.End != "answered" {
 		l += "+" + s.End
 	}
-	if strings.HasPrefix(s.Config, "both") && !s.Rotated {
-		l += "@" + s.Config // both key options set
+	if !singleOption(s.Config) && !s.Rotated {
+		l += "@" + s.Config // both key options set / key material in another form
+	}
+	if s.Shape != nil && s.Shape.K == "shape" {
+		l += "@" + s.Chain // a chain shape other than the default ones
 	}
 	return l
 }
@@ -143,6 +148,7 @@ type World struct {
 	mu   sync.Mutex
 	memo map[string]*Body
 	seed int64
+	weak *World // the same world around a log key with parameters RFC 6962 excludes (material.go)
 }
 
 // Body is a rendered response body together with what the harness knows about it.
@@ -251,6 +257,7 @@ type Shared struct {
 	Root    *pki.Node
 	Inter   *pki.Node
 	Entries map[string][2][]byte
+	signers map[string]*pki.Node // what signs the precertificates of the chain shapes (shapes.go)
 }
 
 // NewShared generates keys and the certificate hierarchy.
